@@ -29,9 +29,22 @@ def observe(case):
         q = quotify(s, Context())
     except Exception as e:  # noqa: BLE001
         return {"s": cps(s), "q": [], "vals": [], "err": "quotify:" + type(e).__name__}
-    stack, ctx, err = runner.exec_text(q, dict_compress=dc)
+    try:
+        with runner.CaptureStdout():     # a broken quote may run the string's tail as a program
+            if not dc:
+                # the same text first goes through the transpiler in the OTHER mode (its result is not judged):
+                # whatever the transpiler remembers between calls must not leak into this run
+                try:
+                    common.with_alarm(lambda _: runner.exec_text(q, dict_compress=True), None, 3)
+                except BaseException:  # noqa: BLE001
+                    pass
+            stack, ctx, err = common.with_alarm(lambda _: runner.exec_text(q, dict_compress=dc), None, 5)
+    except common.CaseTimeout:
+        return {"s": cps(s), "q": cps(q), "vals": [], "err": "hang"}
+    except BaseException as e:  # noqa: BLE001
+        return {"s": cps(s), "q": cps(q), "vals": [], "err": type(e).__name__}
     vals = [cps(v) if isinstance(v, str) else [-1] for v in (stack or [])]
-    return {"s": cps(s), "q": cps(q), "vals": vals, "err": err or ""}
+    return {"s": cps(s), "q": cps(q), "vals": vals, "err": (err or "").split(":")[1] if ":" in (err or "") else (err or "")}
 
 
 def main(tier):
@@ -65,7 +78,8 @@ def main(tier):
         mc = tlc.model_check(s, "MC_Quote", cfg="MC_Quote", workers=16)
         if not mc["ok"]:
             V.add("spec:MC_Quote:" + str(mc["violated"]), {"trace": tlc.counterexample(mc["out"])})
-        obs = common.pool_map(observe, cs, initfn=common.import_repo)
+        obs = common.pool_map(observe, cs, initfn=common.import_repo, hard_timeout=30,
+                              on_timeout=lambda c: {"s": cps(c[0]), "q": [], "vals": [], "err": "hang"})
         verdicts, st = tlc.validate(s, "Trace_Quote", obs, cfg="Trace_Quote.cfg", chunk=5000)
     tally = {}
     for (sv, dc), v, o in zip(cs, verdicts, obs):
